@@ -60,4 +60,58 @@ example :
     let root : TDict := [(0x41, .leaf 1), (0x81, .node [(0x40, .leaf 7)])]
     trieDecode root [0x41, 0x81, 0x40, 0x41, 0x81] = [1, 7, 1] := by decide
 
+/-! ## ToUnicode CMaps: parsed map = specified map -/
+
+/-- Full statement for ToUnicode: for every program of bfchar / bfrange sections in the domain
+(`inDomain`: start and end codes of a range have equal length, an incremented destination is
+non-empty and its last `min 4 len` bytes do not overflow, no code is redefined from U+0020 to U+00A0),
+running `CMapParser` on the CMap's tokens yields exactly the specified map: every bfchar pair, every
+bfrange increment (carry form) and every bfrange array element, later definitions overriding
+earlier ones. -/
+theorem tounicode_parse_spec (secs : List Sec) (h : inDomain secs = true) :
+    parseToUnicode (render secs) = .ok (specMap secs) := by
+  simp only [inDomain, Bool.and_eq_true] at h
+  rw [parse_render secs h.1, putAll_quirkFree _ _ h.2]
+  simp [specMap]
+
+/-- Without the U+00A0 hypothesis: the parsed map is the sequence of `add_cid2unichr` assignments of the
+specified pairs (the assignment ignores U+00A0 for a code that currently maps to a space). -/
+theorem tounicode_parse_assignments (secs : List Sec) (h : secs.all secOk = true) :
+    parseToUnicode (render secs) = .ok (putAll (specPairs secs) []) :=
+  parse_render secs h
+
+/-- bfchar: each `<src> <dst>` pair of one section maps code `src` to the UTF-16BE text `dst`
+(handler level, any prior map `m`). -/
+theorem bfchar_map (es : List (Bytes × Bytes)) (m : UMap) :
+    foldEntries bfcharEntry (chop2 (es.flatMap (fun e => [Tok.str e.1, Tok.str e.2]))) m
+      = .ok (putAll (es.map (fun e => ((nunpack e.1 : Int), utf16Ignore e.2))) m) :=
+  bfchar_fold es m
+
+/-- bfrange, both forms (handler level): `<lo> <hi> <dst>` maps code `lo + i` to `dst` with its last
+`min 4 len` bytes incremented by `i` as a big-endian number; `<lo> <hi> [d0 d1 …]` maps `lo + i` to `dᵢ`. -/
+theorem bfrange_map (es : List REntry) (m : UMap) (h : es.all entryOk = true) :
+    foldEntries bfrangeEntry (chop3 (es.flatMap renderREntry)) m = .ok (putAll (es.flatMap rangePairs) m) :=
+  bfrange_fold es m h
+
+/-- non-vacuity: a program with a bfchar section (1- and 2-byte sources, a surrogate pair target), a
+bfrange increment that carries out of the low byte, and an array. -/
+def exampleSecs : List Sec :=
+  [.chars [([0x41], [0x00, 0x41]), ([0x00, 0x02], [0xD8, 0x3D, 0xDE, 0x00])],
+   .ranges [⟨[0x00, 0x10], [0x00, 0x12], .inc [0x00, 0xFE]⟩,
+            ⟨[0x00, 0x20], [0x00, 0x21], .arr [[0x30, 0x42], [0x00, 0x66, 0x00, 0x69]]⟩]]
+
+example : inDomain exampleSecs = true := by decide
+example : (parseToUnicode (render exampleSecs)).toOption = some
+    [(0x21, [0x66, 0x69]), (0x20, [0x3042]), (0x12, [0x100]), (0x11, [0xFF]), (0x10, [0xFE]),
+     (2, [0x1F600]), (0x41, [0x41])] := by decide
+
+/-- code 1 is first given U+0020, then U+00A0. -/
+def nbspSecs : List Sec := [.chars [([0x01], [0x00, 0x20]), ([0x01], [0x00, 0xA0])]]
+
+/-- The U+00A0 rule of `add_cid2unichr` is real: outside `inDomain` the parsed map differs from the
+specified one (the later definition is ignored). -/
+theorem tounicode_nbsp_cex :
+    inDomain nbspSecs = false ∧ (parseToUnicode (render nbspSecs)).toOption ≠ some (specMap nbspSecs) := by
+  decide
+
 end PdfVerif.Props.C07
